@@ -18,9 +18,20 @@ ASSUME = [
     "locate_droplets_in_mask returns SphericalDroplet candidates (checked per configuration)",
     "refined results keep the candidate's class (C04: refine_class); observed per configuration",
 ]
-RULE = ("complete enumeration: 12 grids (Cartesian 1-3d x periodicity masks, polar, spherical, cylindrical +/- periodic z) x modes {0,1,2,3,8} "
-        "x width {not given, 0.5, 0.0} x refine on/off x threshold rule {0.5, extrema, mean, otsu}; non-trivial = at least one droplet located; "
-        "distinct by configuration")
+RULE = ("complete enumeration: 12 base grids (Cartesian 1-3d x periodicity masks, polar, spherical, cylindrical +/- periodic z) + 17 geometry "
+        "variants (non-zero / negative origin, unequal cell counts and spacings in both orders, periodic axis first / middle / last, polar and "
+        "spherical grids with inner radius > 0 and fine slicing, narrow / flat / shifted / dz != dr cylinders) x modes {0,1,2,3,8} "
+        "x width {not given, 0.5, 0.0} x refine on/off x threshold rule {0.5, extrema, mean, otsu}, minimal_radius drawn from {default, 0, -1, -inf}; "
+        "+ image types (int64, uint8, float32 data) x every grid x modes {0,2} x width {not given, 0.5} x refine on/off x {extrema, mean}; "
+        "+ images without droplets x every grid x modes {0,2} x width x refine; + num_processes in {2, 'auto'} with refinement on five grids; "
+        "non-trivial = at least one droplet located; distinct by configuration")
+
+# inputs that make the UNCHANGED tree behave questionably; reported in the evidence notes, not judged (the lead decides)
+SUSPECTED = [
+    "empty-result-data: when no droplet is located, locate_droplets returns Emulsion([]) whose .data raises RuntimeError ('emulsion is "
+    "empty and an explicit dtype has not been specified'), whereas locate_droplets_in_mask returns Emulsion.empty(example) for the same "
+    "image; the property's 'tabular data can be formed' is judged for results with at least one droplet only",
+]
 
 CLS = {"SphericalDroplet": "Spherical", "DiffuseDroplet": "Diffuse", "PerturbedDroplet2D": "P2D",
        "PerturbedDroplet3D": "P3D", "PerturbedDroplet3DAxisSym": "P3DAxi"}
@@ -39,12 +50,72 @@ def grids():
     out.append(("spherical", SphericalSymGrid(6, 8), False))
     out.append(("cyl", CylindricalSymGrid(4, (0, 8), (5, 10)), True))
     out.append(("cyl-periodic", CylindricalSymGrid(4, (0, 8), (5, 10), periodic_z=True), True))
+    return out + geometry_variants()
+
+
+def geometry_variants():
+    """grids on which a class decision keyed on anything but (dimension, cylindrical) shows: non-zero origins, unequal cell
+    counts / spacings (larger first and larger last), periodic axis first / middle / last, symmetric grids with inner radius > 0
+    or many cells, narrow / flat / shifted cylinders (names start with `v-`)"""
+    from pde import CartesianGrid, PolarSymGrid, SphericalSymGrid, CylindricalSymGrid
+    out = [
+        ("v-cart1d-centred", CartesianGrid([(-8, 8)], [16], periodic=False), False),
+        ("v-cart1d-negative", CartesianGrid([(-30, -10)], [10], periodic=True), False),
+        ("v-cart2d-shifted-12x10", CartesianGrid([(3, 15), (-5, 5)], [12, 10], periodic=[False, True]), False),
+        ("v-cart2d-negative-8x12", CartesianGrid([(-20, -12), (-12, 0)], [8, 12], periodic=[True, False]), False),
+        ("v-cart2d-dx1-dy2", CartesianGrid([(0, 10), (0, 20)], [10, 10], periodic=[False, False]), False),
+        ("v-cart3d-8x6x5-per-first", CartesianGrid([(-4, 4), (0, 6), (10, 15)], [8, 6, 5], periodic=[True, False, False]), False),
+        ("v-cart3d-5x6x8-per-middle", CartesianGrid([(-9, -4), (-3, 3), (0, 8)], [5, 6, 8], periodic=[False, True, False]), False),
+        ("v-cart3d-dz2-per-last", CartesianGrid([(0, 6), (0, 6), (0, 12)], [6, 6, 6], periodic=[False, False, True]), False),
+        ("v-polar-inner", PolarSymGrid((1, 9), 8), False),
+        ("v-polar-fine", PolarSymGrid(5, 20), False),
+        ("v-spherical-inner", SphericalSymGrid((1, 7), 6), False),
+        ("v-spherical-fine", SphericalSymGrid(4, 16), False),
+        ("v-cyl-narrow", CylindricalSymGrid(2, (0, 12), (2, 12)), True),
+        ("v-cyl-narrow-periodic", CylindricalSymGrid(2, (0, 12), (2, 12), periodic_z=True), True),
+        ("v-cyl-flat", CylindricalSymGrid(8, (0, 4), (8, 4)), True),
+        ("v-cyl-shifted-dz2", CylindricalSymGrid(4, (-12, -4), (8, 4)), True),
+        ("v-cyl-shifted-periodic", CylindricalSymGrid(3, (5, 11), (3, 12), periodic_z=True), True),
+    ]
     return out
 
 
-def field_for(name, grid, k):
+IMAGES = ["float64", "int64", "uint8", "float32", "empty"]
+
+
+def field_for(name, grid, k, image="float64"):
+    """the image of one configuration; `image`: float64 (rendered droplets), int64 / uint8 (the same, 8 grey levels, integer
+    data), float32, empty (all zero: nothing to locate)"""
+    from pde import ScalarField
+    f = _rendered(name, grid, k)
+    if image == "float64":
+        return f
+    if image == "empty":
+        return ScalarField(grid, np.zeros(grid.shape))
+    if image == "float32":
+        return ScalarField(grid, f.data.astype(np.float32), dtype=np.float32)
+    dt = {"int64": np.int64, "uint8": np.uint8}[image]
+    return ScalarField(grid, np.round(f.data * 8).astype(dt), dtype=dt)
+
+
+def _rendered(name, grid, k):
     from pde import CartesianGrid
     from droplets import DiffuseDroplet, Emulsion
+    if name.startswith("v-"):   # geometry variants: droplets placed relative to the box
+        if isinstance(grid, CartesianGrid):
+            lo = [b[0] for b in grid.axes_bounds]
+            ext = [b[1] - b[0] for b in grid.axes_bounds]
+            r = {1: 0.14, 2: 0.23, 3: 0.27}[grid.dim] * min(ext)
+            c1 = [a + 0.3 * e + 0.13 * k for a, e in zip(lo, ext)]
+            c2 = [a + 0.74 * e for a, e in zip(lo, ext)]
+            em = Emulsion([DiffuseDroplet(c1, r, 0.7), DiffuseDroplet(c2, r * 0.8, 0.7)])
+        elif "cyl" in name:
+            (r0, r1), (z0, z1) = grid.axes_bounds
+            em = Emulsion([DiffuseDroplet([0, 0, z0 + 0.4 * (z1 - z0) + 0.13 * k], 0.55 * min(r1, (z1 - z0) / 2), 0.7)])
+        else:
+            r0, r1 = grid.axes_bounds[0]
+            em = Emulsion([DiffuseDroplet([0.0] * grid.dim, r0 + 0.45 * (r1 - r0), 0.7)])
+        return em.get_phasefield(grid)
     if isinstance(grid, CartesianGrid):
         n = grid.shape[0]
         c1 = [n * 0.3 + 0.13 * k] * grid.dim
@@ -67,15 +138,27 @@ def expected_class(dim, cyl, modes, width_given, refine):
     return "Diffuse" if (width_given or refine) else "Spherical"
 
 
-def run_config(name, grid, cyl, modes, width, refine, thr, k=0):
+def option_kwargs(opts: dict) -> dict:
+    """JSON-able option record -> keyword arguments (absent key = the documented default is used)"""
+    kw = {}
+    if "minimal_radius" in opts:
+        kw["minimal_radius"] = -np.inf if opts["minimal_radius"] == "-inf" else opts["minimal_radius"]
+    if "num_processes" in opts:
+        kw["num_processes"] = opts["num_processes"]
+    if "refine_args" in opts:
+        kw["refine_args"] = opts["refine_args"]
+    return kw
+
+
+def run_config(name, grid, cyl, modes, width, refine, thr, k=0, image="float64", opts=None):
     from droplets.image_analysis import locate_droplets
-    f = field_for(name, grid, k)
+    f = field_for(name, grid, k, image)
     try:
-        em = locate_droplets(f, threshold=thr, modes=modes, interface_width=width, refine=refine)
+        em = locate_droplets(f, threshold=thr, modes=modes, interface_width=width, refine=refine, **option_kwargs(opts or {}))
     except Exception as e:  # noqa
         return {"exc": type(e).__name__, "msg": str(e)[:120]}
     try:
-        data_ok = em.data is not None
+        data_ok = em.data is not None and (len(em) == 0 or len(em.data) == len(em))
     except Exception as e:  # noqa
         data_ok = False
     res = []
@@ -103,9 +186,11 @@ def oracle(cfg, out):
             return f"droplet dimension {d['dim']} != grid dimension {dim}"
         if modes > 0 and d["nampl"] != modes:
             return f"{d['nampl']} amplitudes, requested {modes}"
+        if d["width"] is not None and not np.isfinite(d["width"]):
+            return f"non-finite interface width {d['width']}"
         if width is not None and not refine and d["width"] != width:
             return f"supplied width {width} not carried (got {d['width']})"
-    if not out["data_ok"]:
+    if not out["data_ok"] and out["drops"]:      # without droplets: SUSPECTED[0], counted, not judged
         return "emulsion.data cannot be formed (no uniform layout)"
     return None
 
@@ -117,35 +202,71 @@ def check(ctx: vlib.Ctx) -> int:
                    + ("regenerated" if fresh else "golden") + " class decision tree (Gen_analysis)")
     cases, meta, fails = [], [], []
     modes_list = [0, 1, 2, 3, 8]
-    for (name, grid, cyl) in grids():
-        dim = grid.dim
+    all_grids = grids()
+    # ---- the configurations: (stream, name, grid, cyl, modes, width, refine, threshold, image, options) --------------
+    configs = []
+    for (name, grid, cyl) in all_grids:
         for modes, width, refine, thr in itertools.product(modes_list, [None, 0.5, 0.0], [False, True], [0.5, "extrema", "mean", "otsu"]):
-            if ctx.quick and refine and dim == 3 and modes == 8 and thr != "extrema":
+            if ctx.quick and refine and grid.dim == 3 and modes == 8 and thr != "extrema":
                 ctx.count("skipped_in_quick_tier", "3-d, 8 modes, refine, non-extrema threshold")
                 continue  # the slowest fits; all enumerated in the thorough tier
-            cfg = (name, dim, cyl, modes, width, refine, thr)
-            out = run_config(name, grid, cyl, modes, width, refine, thr, k=rng.randrange(0, 3))
-            nd = len(out.get("drops", []))
-            ctx.case(list(map(str, cfg)), nontrivial=nd > 0 or out["exc"] is not None)
-            ctx.count("grid", name.split("[")[0])
-            ctx.count("outcome", out["exc"] or f"{nd} droplet(s)")
-            ctx.count("modes", modes)
-            f = oracle(cfg, out)
-            if f:
-                fails.append({"what": f, "input": {"grid": name, "dim": dim, "cyl": cyl, "modes": modes, "width": width,
-                                                   "refine": refine, "threshold": thr}})
-            # Coq case: request + observed result
-            if out["exc"]:
-                obs = "ObsRaise " + ("true" if out["exc"] == "ValueError" else "false")
-            else:
-                ds = vlib.listlit([f"({d['cls']}, {d['dim']}%nat, {max(d['nampl'], 0)}%nat, "
-                                   f"{'Some ' + vlib.qlit(d['width']) if d['width'] is not None else 'None'})"
-                                   for d in out["drops"]])
-                obs = f"ObsLocated {ds}"
-            wl = f"(Some {vlib.qlit(width)})" if width is not None else "None"
-            cases.append(f"({{| rq_dim := {vlib.zlit(dim)}; rq_cyl := {vlib.blit(cyl)}; rq_width := {wl}; "
-                         f"rq_modes := {vlib.zlit(modes)}; rq_refine := {vlib.blit(refine)} |}}, {obs})")
-            meta.append(cfg)
+            mr = rng.choice(["default", "default", 0, -1.0, "-inf"])
+            configs.append(("enumeration", name, grid, cyl, modes, width, refine, thr, "float64",
+                            {} if mr == "default" else {"minimal_radius": mr}))
+    for (name, grid, cyl) in all_grids:   # integer / float32 image data
+        for image in ("int64", "uint8", "float32"):
+            for modes, width, refine, thr in itertools.product([0, 2], [None, 0.5], [False, True], ["extrema", "mean"]):
+                configs.append(("image-type", name, grid, cyl, modes, width, refine, thr, image, {}))
+    for (name, grid, cyl) in all_grids:   # nothing to locate
+        for modes, width, refine in itertools.product([0, 2], [None, 0.5], [False, True]):
+            configs.append(("no-droplets", name, grid, cyl, modes, width, refine, 0.5, "empty", {}))
+    for name, nproc in (("cart2d[True, False]", 2), ("spherical", 2), ("cyl", 2), ("v-cart3d-5x6x8-per-middle", "auto"), ("v-cyl-narrow", 2)):
+        grid, cyl = next((g, c) for n, g, c in all_grids if n == name)   # refinement in worker processes
+        for modes, width in ((0, None), (2, 0.5)):
+            configs.append(("parallel", name, grid, cyl, modes, width, True, "extrema", "float64",
+                            {"num_processes": nproc, "refine_args": {"vmin": None, "vmax": None}}))
+    empty_data = {"formed": 0, "RuntimeError or other failure": 0}
+    for (stream, name, grid, cyl, modes, width, refine, thr, image, opts) in configs:
+        dim = grid.dim
+        cfg = (name, dim, cyl, modes, width, refine, thr)
+        out = run_config(name, grid, cyl, modes, width, refine, thr, k=rng.randrange(0, 3), image=image, opts=opts)
+        nd = len(out.get("drops", []))
+        ctx.case(list(map(str, cfg)) + [image, json.dumps(opts, sort_keys=True)], nontrivial=nd > 0 or out["exc"] is not None)
+        ctx.count("stream", stream)
+        ctx.count("grid", name.split("[")[0])
+        ctx.count("grid_family", "cartesian" if "cart" in name else name.replace("v-", "").split("-")[0])
+        ctx.count("grid_geometry", "variant (origin / shape / spacing / inner radius / narrow)" if name.startswith("v-") else "base")
+        ctx.count("image", image)
+        ctx.count("minimal_radius", str(opts.get("minimal_radius", "default")))
+        ctx.count("num_processes", str(opts.get("num_processes", "default (1)")))
+        ctx.count("refine", "on" if refine else "off")
+        ctx.count("width", "not given" if width is None else str(width))
+        ctx.count("threshold", str(thr))
+        ctx.count("outcome", out["exc"] or f"{nd} droplet(s)")
+        ctx.count("modes", modes)
+        if out["exc"] is None and nd == 0:
+            empty_data["formed" if out["data_ok"] else "RuntimeError or other failure"] += 1
+        f = oracle(cfg, out)
+        if f is None and stream == "no-droplets" and out["exc"] is None and nd != 0:
+            f = f"{nd} droplet(s) located in an image without any cell above the threshold"
+        if f:
+            fails.append({"what": f, "input": {"grid": name, "dim": dim, "cyl": cyl, "modes": modes, "width": width,
+                                               "refine": refine, "threshold": thr, "image": image, "options": opts}})
+        # Coq case: request + observed result
+        if out["exc"]:
+            obs = "ObsRaise " + ("true" if out["exc"] == "ValueError" else "false")
+        else:
+            ds = vlib.listlit([f"({d['cls'] if d['cls'] in CLS.values() else 'Spherical'}, {d['dim']}%nat, {max(d['nampl'], 0)}%nat, "
+                               f"{'Some ' + vlib.qlit(d['width']) if d['width'] is not None and np.isfinite(d['width']) else 'None'})"
+                               for d in out["drops"]])
+            obs = f"ObsLocated {ds}"
+        wl = f"(Some {vlib.qlit(width)})" if width is not None else "None"
+        cases.append(f"({{| rq_dim := {vlib.zlit(dim)}; rq_cyl := {vlib.blit(cyl)}; rq_width := {wl}; "
+                     f"rq_modes := {vlib.zlit(modes)}; rq_refine := {vlib.blit(refine)} |}}, {obs})")
+        meta.append(cfg + (image, opts))
+    for k, v in empty_data.items():
+        ctx.count("suspected: .data of a result without droplets", k, v)
+    ctx.notes.append("SUSPECTED (reported, not judged): " + " | ".join(SUSPECTED))
     ctx.sample({"config": list(map(str, meta[len(meta) // 2])), "coq_case": cases[len(cases) // 2]})
     header = """From Coq Require Import QArith ZArith List Bool.
 Import ListNotations.
@@ -182,7 +303,8 @@ def replay(path: str) -> int:
     if "grid" in inp:
         for (name, grid, cyl) in grids():
             if name == inp["grid"]:
-                out = run_config(name, grid, cyl, inp["modes"], inp["width"], inp["refine"], inp["threshold"])
+                out = run_config(name, grid, cyl, inp["modes"], inp["width"], inp["refine"], inp["threshold"],
+                                 image=inp.get("image", "float64"), opts=inp.get("options") or {})
                 f = oracle((name, grid.dim, cyl, inp["modes"], inp["width"], inp["refine"], inp["threshold"]), out)
                 print("property oracle on the current tree:", f or "holds")
                 return 1 if f else 0
